@@ -89,8 +89,11 @@ const (
 
 var accRoleNames = []string{"init-pre", "init-post", "main", "input", "poster", "parser", "timer", "sigclose", "encoder", "unknown"}
 
-// accMulti: roles of which several instances may run at once.
-var accMulti = map[int]bool{accRolePoster: true, accRoleTimer: true, accRoleEncoder: true, accRoleUnknown: true}
+// accMulti: roles of which several instances may run at once.  The input
+// goroutine is among them: Suspend waits for the parser's run loop, not for the
+// input goroutine, so after Resume the previous one can still be alive (blocked in
+// PostEventBlocking on a full queue) next to the new one — seen by the race detector.
+var accMulti = map[int]bool{accRoleInput: true, accRolePoster: true, accRoleTimer: true, accRoleEncoder: true, accRoleUnknown: true}
 
 // accConc says whether two different roles may run concurrently.
 //
